@@ -114,6 +114,19 @@ CHECKS["C13"] = dict(
          "untouched caller arguments.",
     design="4/C13")
 
+CHECKS["C16"] = dict(
+    technique="Hypothesis-generated grid parameters (biased towards "
+              "non-representable spacings) with exact-rational axis oracle, "
+              "textbook spherical-conversion oracle with conditioning-aware "
+              "tolerance, index-encoded arrays for the trimming helpers, "
+              "and consumer shape checks",
+    text="Axis length/location/extent, derived array shapes, "
+         "Cartesian<->spherical round trips, cutoffmask/cutoffmask2/excision "
+         "and every consumer that mixes fd.x with param-shaped data are "
+         "checked over thousands of generated parameter sets, ~25% of which "
+         "are ones where a floating-point arange miscounts.",
+    design="4/C16")
+
 NOT_YET = "check not built yet in this session (see DESIGN.md section 4)"
 
 
